@@ -5,7 +5,7 @@ import json, os, re, subprocess, sys
 ROOT = os.path.dirname(os.path.dirname(os.path.abspath(__file__)))
 suffix = sys.argv[1]
 ids = sys.argv[2:] or [f'C{i:02d}' for i in range(1, 21)]
-rounds = {'a': 'first', 'b': 'second', 'c': 'third', 'd': 'fourth', 'e': 'fifth', 'f': 'sixth', 'g': 'seventh', 'h': 'eighth'}
+rounds = {'a': 'first', 'b': 'second', 'c': 'third', 'd': 'fourth', 'e': 'fifth', 'f': 'sixth', 'g': 'seventh', 'h': 'eighth', 'i': 'ninth'}
 for pid in ids:
     d = os.path.join(ROOT, 'seeded', f'{pid}-{suffix}')
     if not os.path.isdir(d):
